@@ -43,7 +43,7 @@ import (
 func propC24() *simkit.Property {
 	return &simkit.Property{
 		ID: "C24", Level: "exploration", Bubble: true, TapeLimit: 1500,
-		Rule: "each run = one container (REP 1-2 rules or EC 1-2 rules over 2-5 nodes, local node inside or outside, max object size 1-4 KiB) and 1-3 uploads: a client-sealed object (plain, with a client session, v2 split child with parent header, EC part, LOCK) through the PUT stream or the replication entry, or a blank object the node slices / EC-encodes and signs (session token or node-owned), payload 0-16 KiB; each upload is valid or broken in exactly one respect (26 kinds: id, checksum, size, header/attribute byte after signing, signer, signature, session issuer / signer / key / verb / expiry, attribute zero byte / duplicate / empty, EC indexes / hashes / length / parent, parent header id / signature / attributes, node session missing / expired, foreign owner) and its stream is chunked 1 byte..whole and optionally cut, closed early, corrupted, duplicated or padded; 0-25% of the deliveries to nodes fail. Every object reaching any storage is judged by the independent validity predicate; broken input must give an error and no store; node-made pieces must reassemble to the streamed bytes. distinct = trace digest; non-trivial = >=1 object stored and >=1 broken upload or failed delivery",
+		Rule: "each run = one container (REP 1-2 rules or EC 1-2 rules over 2-5 nodes, local node inside or outside, max object size 1-4 KiB) and 1-3 uploads: a client-sealed object (plain, with a client session, v2 split child with parent header, EC part, LOCK) through the PUT stream or the replication entry, or a blank object the node slices / EC-encodes and signs (session token or node-owned), payload 0-16 KiB; each upload is valid or broken in exactly one respect (40+ kinds: id, checksum, size, header/attribute byte after signing, signer, signature, session issuer / signer / key / verb / expiry, attribute zero byte / duplicate / empty, EC indexes / hashes / length / parent, parent header id / signature / attributes, node session missing / expired, foreign owner) and its stream is chunked 1 byte..whole and optionally cut, closed early, corrupted, duplicated or padded; 0-25% of the deliveries to nodes fail. Every object reaching any storage is judged by the independent validity predicate; broken input must give an error and no store; node-made pieces must reassemble to the streamed bytes. distinct = trace digest; non-trivial = >=1 object stored and >=1 broken upload or failed delivery",
 		Run:  runC24,
 		Assumptions: []string{
 			"trusted base of the predicate: SDK Object.VerifyID / VerifySignature, session token VerifySignature / AssertAuthKey, crypto/sha256; none of the put / core-object / internal-crypto code",
@@ -317,13 +317,14 @@ func c24Build(r *simkit.R, w *pvWorld, cx *c24Ctx, shape int, size int, mutate b
 	payload := r.Bytes(size)
 	attrs := []object.Attribute{object.NewAttribute("FileName", "a.bin"), object.NewAttribute("Tag", "t1")}
 	badAttrs := func(which int) []object.Attribute {
+		zero := []string{"v\x00", "\x00v", "a\x00b", "\x00"}[r.Intn(4)]
 		switch which {
 		case 0:
 			u.mut = "attribute key with zero byte"
-			return append(attrs, object.NewAttribute("k\x00ey", "v"))
+			return append(attrs, object.NewAttribute(zero, "v"))
 		case 1:
 			u.mut = "attribute value with zero byte"
-			return append(attrs, object.NewAttribute("key", "v\x00"))
+			return append(attrs, object.NewAttribute("key", zero))
 		case 2:
 			u.mut = "duplicated attribute key"
 			return append(attrs, object.NewAttribute("Tag", "t2"))
@@ -900,10 +901,12 @@ func runC24(r *simkit.R) {
 			}
 		}
 		w.reportPanic()
-		for _, rec := range st {
-			if rec.binErr != "" {
-				r.Failf("put-stores-invalid", "local storage is handed a broken binary: "+c24Generic(rec.binErr)+" ["+where+"]", "node %s (%s): %s", w.nodeName(rec.node), rec.via, rec.binErr)
+		for _, rec := range w.recs {
+			if rec.op == op && rec.binErr != "" {
+				r.Failf("put-stores-invalid", "a storage is handed a broken binary: "+c24Generic(rec.binErr)+" ["+where+"]", "node %s (%s): %s", w.nodeName(rec.node), rec.via, rec.binErr)
 			}
+		}
+		for _, rec := range st {
 			if why := c24Valid(&rec.obj, cx); why != "" {
 				r.Failf("put-stores-invalid", why+" ["+where+"]", "an object reached the storage of node %s (%s) although: %s.\nupload: %s, %d payload bytes, %d streamed; result %s at %s", w.nodeName(rec.node), rec.via, why, where, len(u.payload), len(streamed), res, stage)
 			}
@@ -933,8 +936,8 @@ func runC24(r *simkit.R) {
 			if resErr == nil {
 				r.Probe("valid upload accepted: " + c24ShapeName(shape))
 			} else if failedDeliveries == 0 {
-				r.Probe("valid upload refused although no delivery failed (allowed, watch)")
-				r.Logf("  refused: %s", c24Generic(resErr.Error()))
+				r.Probe("valid upload refused although no delivery failed (allowed, watch): " + c24Tail(resErr.Error()))
+				r.Logf("  refused: %s", c24Tail(resErr.Error()))
 			} else {
 				r.Probe("valid upload failed after delivery failures")
 			}
@@ -971,6 +974,9 @@ func c24SpanPlaced(rep []int, ec [][2]int, lists [][]int, recs []*pvRec) string 
 	seen := map[oid.ID]bool{}
 	sys := map[oid.ID]bool{}
 	for _, rec := range recs {
+		if rec.binErr != "" && rec.obj.GetID().IsZero() {
+			continue // undecodable request: judged separately
+		}
 		a := c25Ack{node: rec.node, id: rec.obj.GetID(), rule: -1, part: -1}
 		logical := a.id
 		if rs, ps, ok := pvECInfo(&rec.obj); ok {
@@ -1003,6 +1009,14 @@ func c24SpanPlaced(rep []int, ec [][2]int, lists [][]int, recs []*pvRec) string 
 		}
 	}
 	return ""
+}
+
+// c24Tail: the innermost cause of a wrapped error, without run-specific values.
+func c24Tail(s string) string {
+	if i := strings.LastIndex(s, ": "); i >= 0 {
+		s = s[i+2:]
+	}
+	return c24Generic(s)
 }
 
 // c24Generic strips run-specific values (hex, numbers) from a message.
